@@ -162,6 +162,7 @@ func runL1(prop, tier, solver string, seed int) (*eng.Evidence, int) {
 	violations := 0
 	replayed := map[string]string{} // signature -> result
 	inconclusive := []string{}
+	beyond := 0
 	for _, r := range run.Cubes {
 		queries += r.Queries
 		discharged += r.Discharged
@@ -179,7 +180,12 @@ func runL1(prop, tier, solver string, seed int) (*eng.Evidence, int) {
 		if r.Vacuous {
 			inconclusive = append(inconclusive, fmt.Sprintf("cube %s (%s): vacuity witness unsatisfiable", r.ID, r.Cube))
 		}
-		if r.Discharged != r.Obligations && len(r.Violations) == 0 && !r.Inconcl {
+		if r.Beyond != "" {
+			fmt.Printf("UNDECIDED property=%s cube %s (%s): %s\n", prop, r.ID, r.Cube, r.Beyond)
+			beyond++
+			continue
+		}
+		if r.Discharged != r.Obligations && len(r.Violations) == 0 && !r.Inconcl && r.Hunt == "" {
 			inconclusive = append(inconclusive, fmt.Sprintf("cube %s (%s): only %d of %d obligations discharged", r.ID, r.Cube, r.Discharged, r.Obligations))
 		}
 		for _, v := range r.Violations {
@@ -282,6 +288,7 @@ func runL1(prop, tier, solver string, seed int) (*eng.Evidence, int) {
 			"cube_list":                     cubeNames,
 			"load_seconds":                  run.LoadS,
 			"replay_results":                replayed,
+			"undecided_cubes_outside_claim": beyond,
 			"trusted_base":                  trustedBaseL1,
 			"default_limit_kernel":          defaultLimit,
 		},
